@@ -225,17 +225,6 @@ def main():
     if not gm:
         raise Broken("generic ReadBinary impl changed")
 
-    # the read cache: both entry points memoise under ReadScope::base and store only successful reads
-    # (read_cache is driven by the correspondence; read_cache_state cannot be called — its Args type is an
-    # Rc, not Copy — so its shape is all that ties it to the model)
-    for fn, rd in (("read_cache", r"self\.read::<T>\(\)\?"), ("read_cache_state", r"self\.read_dep::<T>\(state\)\?")):
-        m, body = fn_body(src, r"pub fn %s<" % fn)
-        norm = re.sub(r"\s+", " ", body).strip()
-        want = (r"match cache\.map\.entry\(self\.base\) \{ Entry::Vacant\(entry\) => \{ let t = Rc::new\(%s\); "
-                r"Ok\(Rc::clone\(entry\.insert\(t\)\)\) \} Entry::Occupied\(entry\) => Ok\(Rc::clone\(entry\.get\(\)\)\), \}" % rd)
-        if not re.fullmatch(want, norm):
-            raise Broken("%s changed: %s" % (fn, norm[:200]))
-
     # impl ReadUnchecked for <Ty>
     impl = {}
     for m in re.finditer(r"impl ReadUnchecked for (\w+) \{\s*type HostType = (\w+);\s*const SIZE: usize = size::(\w+);\s*unsafe fn read_unchecked<'a>\(ctxt: &mut ReadCtxt<'a>\) -> \w+ \{\s*ctxt\.read_unchecked_(\w+)\(\)\s*\}\s*\}", src):
